@@ -3,6 +3,9 @@ From Coq Require Import List String ZArith.
 Import ListNotations.
 Open Scope string_scope.
 
+Definition gen_tails_blob_tag_sz : Z := 2%Z.
+Definition gen_tails_version : list Z := [0%Z; 2%Z].
+Definition gen_tails_disarm_before_rename : bool := false.
 Definition gen_qualifiable_tags : list string := ["issuer_did"; "cred_def_id"; "schema_id"; "schema_issuer_did"; "rev_reg_id"].
 Definition gen_max_attributes_count : Z := 125%Z.
 Definition gen_regex_uri_identifier : string := "^[a-zA-Z][a-zA-Z0-9\+\-\.]*:.+$".
